@@ -19,7 +19,7 @@ func C19(r *core.Report) {
 		"R4 the ordered flush walks slots upward and sorts positions with a strict ascending comparator before sending; R5 the address-index path must not cap the per-account result with a constant limit that the scan path does not have (index/scan parity). " +
 		"R6 what the per-account workers of the address-index path collect into keeps each response under a key built from (slot, position) - a keyed map store, never an append or a direct send - so a transaction found by several workers is streamed once. " +
 		"R7 the address-index path hands the multi-epoch reader its per-epoch readers newest epoch first (the slot-window iterator stops at the first transaction below the range, which is only right when older epochs come later). " +
-		"R12 the StreamBlocks account filter passes over a transaction only after its loaded addresses (writable and readonly) were compared, or when it could not be decoded / has no table lookups at all. R13 the slot loop variable of the streaming handlers is changed by the loop's post statement only. R14 the slice of keys parsed from a request filter starts empty and grows by append (or is cut to the number stored): no zero key - the System Program id - is left in a filter. R14 also: every successfully parsed key is stored - no path from the parse to the next input bypasses the store except the error return. R15 account_exclude is none-of and account_required all-of over the listed accounts: decided per listed key with HasAccount, or per distinct key against the size of the very set that is probed. R16 getErr, whose result the failed-filter compares with nil, never returns a nilable concrete value (map, pointer, slice) through its interface result without a dominating non-nil test. R17 over every valuation of (address index loaded, sub-conditions of the dispatch): whenever the block-scan path serves a request with a non-empty account_include, the predicate's condition for applying the any-of test is true - include is honoured whether or not an address index is loaded, for single-slot ranges too. R18 sibling agreement of the two ways a streamed message is built: every field-wise filled TransactionResponse of the handler is assigned the same set of fields on the block-scan path and on the address-index path, and its slot is assigned on every path from the allocation to Send / the ordering buffer. R19 a transaction stored without metadata is classified alike on both paths: where a caller can hand the predicate no metadata at all (the producing helper has a success return that leaves the result nil), the failed-test classifies with getErr only under a nil test of the metadata (or getErr maps nil to no error). R20 the optional vote / failed flags are consulted through the generated getters (which answer false for an absent flag) only under a test that the flag is present: an unset flag does not filter. Not decided: equality of the streamed set with the archive for concrete epochs, the account matching itself (HasAccount, loaded addresses)."
+		"R12 the StreamBlocks account filter passes over a transaction only after its loaded addresses (writable and readonly) were compared, or when it could not be decoded / has no table lookups at all. R13 the slot loop variable of the streaming handlers is changed by the loop's post statement only. R14 the slice of keys parsed from a request filter starts empty and grows by append (or is cut to the number stored): no zero key - the System Program id - is left in a filter. R14 also: every successfully parsed key is stored - no path from the parse to the next input bypasses the store except the error return. R15 account_exclude is none-of and account_required all-of over the listed accounts: decided per listed key with HasAccount, or per distinct key against the size of the very set that is probed. R16 getErr, whose result the failed-filter compares with nil, never returns a nilable concrete value (map, pointer, slice) through its interface result without a dominating non-nil test. R17 over every valuation of (address index loaded, sub-conditions of the dispatch): whenever the block-scan path serves a request with a non-empty account_include, the predicate's condition for applying the any-of test is true - include is honoured whether or not an address index is loaded, for single-slot ranges too. R18 sibling agreement of the two ways a streamed message is built: every field-wise filled TransactionResponse of the handler is assigned the same set of fields on the block-scan path and on the address-index path, and its slot is assigned on every path from the allocation to Send / the ordering buffer. R19 a transaction stored without metadata is classified alike on both paths: where a caller can hand the predicate no metadata at all (the producing helper has a success return that leaves the result nil), the failed-test classifies with getErr only under a nil test of the metadata (or getErr maps nil to no error). R20 the optional vote / failed flags are consulted through the generated getters (which answer false for an absent flag) only under a test that the flag is present: an unset flag does not filter. Not decided: equality of the streamed set with the archive for concrete epochs, the account matching itself (HasAccount, loaded addresses). R21 the address-index path's history reader compares the limit with the size of the whole result only on the way to an append (same rule as C07.R6): a budget spent on entries outside the slot window makes the streamed set depend on whether an address index is loaded."
 	f := r.Anchor("C19.R1", "main.(*MultiEpoch).processSlotTransactions")
 	if f != nil {
 		c19Polarity(r, f)
@@ -30,6 +30,8 @@ func C19(r *core.Report) {
 	c19FieldCoverage(r)
 	c19FlushOrder(r)
 	readerOrderRule(r, "C19.R7", "main.(*MultiEpoch).getGsfaReadersInEpochDescendingOrderForSlotRange")
+	limitCountsWholeResult(r, "C19.R21", "gsfa.(*GsfaReaderMultiepoch).iterBeforeUntilSlot")
+	r.Floor("C19.R21", 1)
 	r.Floor("C19.R7", 1)
 	rangeSelectionInclusive(r, "C19.R8")
 	r.Floor("C19.R8", 1)
